@@ -74,8 +74,12 @@ class UserBase(BaseException):
     pass
 
 
+class UserRuntimeError(RuntimeError):
+    pass
+
+
 EXCEPTIONS = [Exception, KeyError, OSError, UserError, ValueError, StopIteration, UserBase, SystemExit, GeneratorExit,
-              KeyboardInterrupt]
+              KeyboardInterrupt, NotImplementedError, UserRuntimeError]
 
 
 def BOUNDS(tier):
@@ -129,6 +133,8 @@ def _judge(ctx, out, kind, obj, tag=""):
     elif issubclass(detail, Exception):
         ctx.require(isinstance(out.exc, RuntimeError), tag + "an Exception subclass raises RuntimeError")
         ctx.require(any(e is obj for e in chain), tag + "the cause (through exception groups) is the original exception")
+        ctx.require(out.exc is not obj and any(e is obj for e in chain[1:]),
+                    tag + "the original exception is the CAUSE of the RuntimeError raised, not that error itself")
     # BaseException subclasses: 'ends by raising' is all that is demanded
 
 
